@@ -159,7 +159,7 @@ Fixpoint validate_loop (i : nat) (children : list node) (bodies : list (list nod
   | _ :: r => validate_loop (S i) r bodies
   end.
 
-(* repair C11-empty-plural-case: a plural whose msgid or msgid_plural would be
+(* repair 56dc5cf: a plural whose msgid or msgid_plural would be
    empty cannot be written to a PO file (the library omits an empty
    msgid_plural, and an empty msgid is the header entry) *)
 Definition empty_plural_case (bodies : list (list node)) : bool :=
